@@ -253,7 +253,16 @@ def build(form, xs, ys):
         it.set(list(xs), list(ys))
         return it
     if form == "copy":
-        return Interpolation(Interpolation(list(xs), list(ys)))
+        src = Interpolation(list(xs), list(ys))
+        it = Interpolation(src)
+        if len(xs) % 2:
+            # the source goes on to other work (documented set()), the copy is a table of its own
+            src.set([0.0, 1.0, 2.0, 4.0], [5.0, -1.0, 7.0, 0.5])
+            src(1.5)
+        elif len(xs) % 4 == 0:
+            # a copy re-loaded from an object it was copied from before
+            it.set(src)
+        return it
     if form == "yonly":
         return Interpolation(list(ys))
     if form == "angle_y":
